@@ -102,12 +102,12 @@ func VerifC12Assignments() {
 		}
 		return 0
 	}
-	mk := func() *consumerGroup {
-		return newConsumerGroup("srv", time.Hour, &proto.ConsumerGroup{Id: "g", Coordinator: "srv", Epoch: 1}, false,
+	mk := func(self string) *consumerGroup {
+		return newConsumerGroup(self, time.Hour, &proto.ConsumerGroup{Id: "g", Coordinator: "srv", Epoch: 1}, false,
 			vLog{}, func(string, string) error { return nil }, getParts)
 	}
-	a := mk()
-	b := mk()
+	a := mk("srv")   // the coordinator
+	b := mk("other") // a replica of the metadata that is not the coordinator
 	live := make([]bool, nm)
 	subs := make([][]bool, nm)
 	for i := range subs {
@@ -171,6 +171,41 @@ func VerifC12Assignments() {
 			vCover("stream-deleted")
 		}
 		vCheckAssignments(a, nil, ids, live, subs, streams, alive, counts)
+		// what the coordinator hands out (GetAssignments) is the assignment of
+		// the current epoch; a request carrying another epoch is refused
+		// (the group epoch is the epoch of the last operation that concerned the
+		// group: the deletion of a stream nobody subscribed to leaves it alone)
+		_, cur := a.GetCoordinator()
+		_, curB := b.GetCoordinator()
+		vAssert(cur == curB, "replicas agree on the group epoch")
+		vAssert(cur <= epoch, "the group epoch is the epoch of an applied operation")
+		for m := range ids {
+			if !live[m] {
+				vAssert(!a.IsMember(ids[m]), "a member that left is no longer a member")
+				continue
+			}
+			got, ep, err := a.GetAssignments(ids[m], cur)
+			vAssert(err == nil, "the coordinator serves the assignments of the current group epoch")
+			if err != nil {
+				continue
+			}
+			vAssert(ep == cur, "assignments carry the current group epoch")
+			for s, stream := range streams {
+				x := a.members[ids[m]].assignments[stream]
+				y := got[stream]
+				vAssert(len(x) == len(y), "served assignments are the member's assignments")
+				if len(x) == len(y) {
+					for i := range x {
+						vAssert(x[i] == y[i], "served assignments are the member's assignments")
+					}
+				}
+				_ = s
+			}
+			_, _, err = a.GetAssignments(ids[m], cur-1)
+			vAssert(err == ErrGroupEpoch, "a request with a stale group epoch is refused")
+			_, _, err = b.GetAssignments(ids[m], cur)
+			vAssert(err == ErrBrokerNotCoordinator, "a server that is not the coordinator does not serve assignments")
+		}
 		// identical assignments on the second replica for the same epoch
 		for m := range ids {
 			if !live[m] {
@@ -186,6 +221,168 @@ func VerifC12Assignments() {
 					}
 				}
 			}
+		}
+	}
+	vCover("done")
+}
+
+// VerifC12Expiry: the coordinator's liveness timers. Members join, poll their
+// assignments (which proves liveness), time passes, the coordinator role moves
+// away and back, the removal of an expired member may fail once (the Raft
+// proposal fails; the coordinator tries again one timeout later). Oracle: a
+// member is expired exactly when it has not been heard of for a full timeout
+// while this server was the coordinator (and only then); an expired member is
+// removed through the handler with its own id, once; after every step the
+// assignment invariant holds for the members that remain.
+func VerifC12Expiry() {
+	const T = 10 * time.Second
+	steps := vParam("steps", 4)
+	streams := []string{"s1", "s2"}
+	counts := []int32{2, 1}
+	alive := []bool{true, true}
+	ids := []string{"a", "b", "c"}
+	getParts := func(stream string) int32 {
+		for s, n := range streams {
+			if n == stream {
+				return counts[s]
+			}
+		}
+		return 0
+	}
+	epoch := uint64(1)
+	live := make([]bool, len(ids))
+	subs := make([][]bool, len(ids))
+	for i := range subs {
+		subs[i] = make([]bool, 2)
+	}
+	var g *consumerGroup
+	var expired []string
+	failNext := false
+	handler := func(group, consumer string) error {
+		vAssert(group == "g", "the expiry handler is told the group")
+		if failNext {
+			failNext = false
+			vCover("removal-failed-once")
+			return ErrGroupEpoch
+		}
+		expired = append(expired, consumer)
+		// what the committed LeaveConsumerGroup operation does
+		epoch++
+		_, err := g.RemoveMember(consumer, epoch)
+		vAssert(err == nil, "removing an expired member succeeds")
+		for m := range ids {
+			if ids[m] == consumer {
+				live[m] = false
+			}
+		}
+		return nil
+	}
+	g = newConsumerGroup("srv", T, &proto.ConsumerGroup{Id: "g", Coordinator: "srv", Epoch: 1}, false,
+		vLog{}, handler, getParts)
+	now := time.Duration(0)
+	deadline := make([]time.Duration, len(ids)) // when the member expires unless heard of
+	coordinator := true
+	for st := 0; st < steps; st++ {
+		switch vChoose(5) {
+		case 0: // join
+			m := vChoose(len(ids))
+			if live[m] {
+				return
+			}
+			which := vChoose(2)
+			sl := []string{"s1"}
+			subs[m][0], subs[m][1] = true, false
+			if which == 1 {
+				sl = []string{"s1", "s2"}
+				subs[m][1] = true
+			}
+			epoch++
+			vAssert(g.AddMember(ids[m], sl, epoch) == nil, "AddMember succeeds")
+			live[m] = true
+			deadline[m] = now + T
+			vCover("join")
+		case 1: // a member polls its assignments
+			m := vChoose(len(ids))
+			if !live[m] {
+				return
+			}
+			_, _, err := g.GetAssignments(ids[m], epoch)
+			if coordinator {
+				vAssert(err == nil, "the coordinator serves a live member")
+				deadline[m] = now + T
+				vCover("poll")
+			} else {
+				vAssert(err == ErrBrokerNotCoordinator, "only the coordinator serves assignments")
+			}
+		case 2: // time passes: 4 s or 6 s
+			d := 4 * time.Second
+			if vChoose(2) == 1 {
+				d = 6 * time.Second
+			}
+			if vChoose(2) == 1 {
+				failNext = true
+			}
+			before := len(expired)
+			wasLive := append([]bool{}, live...)
+			wasDeadline := append([]time.Duration{}, deadline...)
+			failing := failNext
+			vAdvance(d)
+			now += d
+			failedNow := failing && !failNext
+			nexp := 0
+			for m := range ids {
+				due := coordinator && wasLive[m] && wasDeadline[m] <= now
+				gone := false
+				for _, e := range expired[before:] {
+					if e == ids[m] {
+						gone = true
+						nexp++
+					}
+				}
+				if !due {
+					vAssert(!gone, "a member heard of within the timeout is not expired")
+				} else if !failedNow {
+					vAssert(gone, "a member not heard of for a full timeout is expired")
+				}
+				if due && !gone {
+					// its removal failed: the coordinator tries again a timeout later
+					deadline[m] = wasDeadline[m] + T
+				}
+				if gone {
+					vCover("expired")
+				}
+			}
+			vAssert(nexp == len(expired)-before, "only members are expired, each once")
+			failNext = false
+			vCover("time")
+		case 3: // the coordinator role moves away / comes back
+			epoch++
+			if coordinator {
+				vAssert(g.SetCoordinator("other", epoch) == nil, "SetCoordinator succeeds")
+				coordinator = false
+				vCover("coordinator-away")
+			} else {
+				vAssert(g.SetCoordinator("srv", epoch) == nil, "SetCoordinator succeeds")
+				coordinator = true
+				for m := range ids {
+					deadline[m] = now + T
+				}
+				vCover("coordinator-back")
+			}
+		case 4: // leave
+			m := vChoose(len(ids))
+			if !live[m] {
+				return
+			}
+			epoch++
+			_, err := g.RemoveMember(ids[m], epoch)
+			vAssert(err == nil, "RemoveMember succeeds")
+			live[m] = false
+			vCover("leave")
+		}
+		vCheckAssignments(g, nil, ids, live, subs, streams, alive, counts)
+		for m := range ids {
+			vAssert(g.IsMember(ids[m]) == live[m], "membership matches the history")
 		}
 	}
 	vCover("done")
